@@ -249,7 +249,7 @@ func (r *runner) observe(tr tracing.ITrace) {
 			}
 			fl = append(fl, id)
 		}
-		r.add(Rec{Ev: "flow", Node: nodeId(t.Source), Flows: fl, Fids: fids})
+		r.add(Rec{Ev: "flow", Node: nodeId(t.Source), Flows: fl, Fids: fids, Kind: t.Origin.String()})
 		r.bump("flow:" + nodeId(t.Source))
 	case bpmn.CompletionTrace:
 		id := nodeId(t.Node)
